@@ -119,10 +119,18 @@ def cutAtPanic : List String → List String
   | "panic" :: _ => ["panic"]
   | x :: xs => x :: cutAtPanic xs
 
+/-- a history up to and including its first panic (the harness stops there and reports the state it finds) -/
+def runUntilPanic {σ : Type} (step : σ → Eps.Cur.Op → σ × Eps.Cur.Out) : σ → List Eps.Cur.Op → σ × List Eps.Cur.Out
+  | s, [] => (s, [])
+  | s, op :: ops =>
+      let (s', o) := step s op
+      if o == .panic then (s', [o])
+      else let (s'', os) := runUntilPanic step s' ops; (s'', o :: os)
+
 open Eps.Cur in
 def cursorLine (al : Nat) (cap : Nat) (ops : List Op) : String :=
-  let (a, ao) := ACur.run al (ACur.withCapacity al cap) ops
-  let (s, so) := SCur.run SCur.init ops
+  let (a, ao) := runUntilPanic (ACur.step al) (ACur.withCapacity al cap) ops
+  let (s, so) := runUntilPanic SCur.step SCur.init ops
   "cursor " ++ ",".intercalate (cutAtPanic (ao.map showOut)) ++ " | " ++ hexOf a.asBytes ++ " " ++ toString a.len ++ " " ++ toString a.pos ++ " ptrok || " ++
     ",".intercalate (so.map showOut) ++ " | " ++ hexOf s.buf ++ " " ++ toString s.buf.length ++ " " ++ toString s.pos ++ " ptrok"
 
@@ -340,7 +348,7 @@ def step (st : St) (line : String) : St × Option String :=
       | _, _, _ => (st, some "badval")
   -- a type with a unit above the alignment of the region (64 for the heap, a page for the mappings): whether a load succeeds
   -- depends on where the region happens to be; what does not depend on it is that nothing is left behind
-  | ["leaku", _, _, _, _] => (st, some "leak first=* oks=* panics=* heap=0 maps=0")
+  | ["leaku", _, _, _, _] => (st, some "leak first=* oks=* panics=* heap=0 maps=0 layouts=0")
   | ["leak", i, loader, reps, h] =>
       match i.toNat?.bind (st.types[·]?), reps.toNat? with
       | some t, some n =>
@@ -351,7 +359,7 @@ def step (st : St) (line : String) : St × Option String :=
             let l := match loader with | "mem" => Loader.mem | "mmap" => Loader.mmap | _ => Loader.map
             (match t.deEps H 0 (regionOf l bytes) with | .ok _ => "ok" | .err _ => "err" | .panic => "panic")
         (st, some ("leak first=" ++ status ++ " oks=" ++ toString (if status == "ok" then n else 0) ++
-                   " panics=" ++ toString (if status == "panic" then n else 0) ++ " heap=0 maps=0"))
+                   " panics=" ++ toString (if status == "panic" then n else 0) ++ " heap=0 maps=0 layouts=0"))
       | _, _ => (st, some "badval")
   -- very large files: whatever the size, the whole stream is accepted by every entry point (C01 / C02 / C08) and a strict
   -- prefix is refused with a read error by the full-copy ones (C11); what the others answer on a prefix is left to the oracle
@@ -360,6 +368,18 @@ def step (st : St) (line : String) : St × Option String :=
       if pre == "-" then (st, some "bigfile ok -")
       else if l == "dfull" || l == "full" then (st, some "bigfile err read")
       else (st, some "bigfile * *")
+  -- a byte vector of n zero bytes (gigabytes: never built here) written to a counting sink: the outcome is that of
+  -- `C13.budget_run` / `C13.split_ok` on a stream of 29 + 8 + 19 + 8 + n bytes (the name is `alloc::vec::Vec<u8>`)
+  | ["bigser", n, sink] =>
+      let total := 64 + n.toNat!
+      if sink == "none" then (st, some ("bigser ok:" ++ toString total ++ " accepted=" ++ toString total ++ " refused=0 after=0"))
+      else if sink == "once" then
+        (st, some (if n.toNat! < 1048576 then "bigser ok:" ++ toString total ++ " accepted=" ++ toString total ++ " refused=0 after=0"
+                   else "bigser err accepted=64 refused=1 after=0"))
+      else
+        let k := (sink.drop 4).toString.toNat!
+        (st, some (if total ≤ k then "bigser ok:" ++ toString total ++ " accepted=" ++ toString total ++ " refused=0 after=0"
+                   else "bigser err accepted=* refused=1 after=0"))
   -- the wrapper stays usable after a failed call (the second call returns); whether the first call fails is the sink's affair
   | ["iterretry", i, _, _] =>
       match i.toNat?.bind (st.stypes[·]?) with
